@@ -82,11 +82,11 @@ def probe(tz, minute, second=0):
 def run(ctx: Ctx):
     rnd = random.Random(ctx.seed)
     if ctx.quick:
-        consts = {"Y0s": {2001}, "Ends": {"open", "count", "until"}}
+        consts = {"Y0s": {2001}, "Y0Old": {1895}, "Ends": {"open", "count", "until"}}       # 1895: rules anchored before 1900
         fixed = {0, 345, -720}
         pairs = {(60, 120)}
     else:
-        consts = {"Y0s": {1996, 2001, 2015}, "Ends": {"open", "count", "until"}}
+        consts = {"Y0s": {1996, 2001, 2015}, "Y0Old": {1895, 1601}, "Ends": {"open", "count", "until"}}
         fixed = {0, 345, -720, 840, -210}
         pairs = {(60, 120), (-300, -240), (570, 630), (0, 120)}
     r = ctx.mc("MC_VTimezone", cfg_text(spec="Spec", constants={**consts, "Cross": False},
@@ -95,12 +95,12 @@ def run(ctx: Ctx):
     zones = r.prints
     # definitions whose onsets are ordered differently in local time and in UTC: the mirror of
     # get_transitions (sort by local time) + pytz (bisect on the derived UTC list) is refuted by TLC
-    rx = ctx.mc("MC_VTimezone", cfg_text(spec="Spec", constants={"Y0s": {2001}, "Ends": {"open"}, "Cross": True},
+    rx = ctx.mc("MC_VTimezone", cfg_text(spec="Spec", constants={"Y0s": {2001}, "Y0Old": set(), "Ends": {"open"}, "Cross": True},
                                          invariants=["InvPytzMirror"]),
                 defs={"OffPairs": {(60, 120)}, "Fixed": {0}}, expect_ok=False, count=False, workers=1, timeout=600)
     if rx.violated != "InvPytzMirror":
         raise Machinery("the local-time sort of get_transitions should be refuted on cross-ordered onsets")
-    rc = ctx.mc("MC_VTimezone", cfg_text(spec="Spec", constants={"Y0s": {2001}, "Ends": {"open"}, "Cross": True},
+    rc = ctx.mc("MC_VTimezone", cfg_text(spec="Spec", constants={"Y0s": {2001}, "Y0Old": set(), "Ends": {"open"}, "Cross": True},
                                          invariants=["InvUnique", "InvNonEmpty", "Vec"]),
                 defs={"OffPairs": {(60, 120)}, "Fixed": {0}}, workers=4, timeout=600)
     cross = [v for v in rc.prints if [o["name"] for o in v["z"]] == ["A", "B"]]
@@ -116,7 +116,9 @@ def run(ctx: Ctx):
             tzp.use(prov)
             for zi, v in enumerate(zones):
                 with_x = zi % 3 == 1
-                text = render_zone(v["z"], f"Verif/Zone-{zi}", with_x=with_x)
+                # every fourth zone has an id that needs TEXT escaping on the wire (comma, semicolon, backslash)
+                tzid_wire = f"Verif/Zone-{zi}" if zi % 4 != 2 else f"Verif\\, Zone\\; {zi} \\\\ x"
+                text = render_zone(v["z"], tzid_wire, with_x=with_x)
                 case = {"zone": v["z"], "provider": prov, "with_x": with_x}
                 try:
                     comp = Timezone.from_ical(text)
